@@ -416,9 +416,62 @@ fn run_uclient(sc: &Value) -> Value {
     json!({ "results": results, "order_size": std::mem::size_of::<rotala::exchange::uist_v1::Order>() })
 }
 
+/// The crate's reqwest client (uistv1_client::Client) against a real HTTP server on the loopback interface serving
+/// the crate's handlers over one AppState::single: URL building, request bodies and response decoding of the real
+/// client are exercised; responses are compared in lockstep like run_uclient. If the loopback interface cannot be
+/// used the trace says so ("skipped") and nothing is concluded.
+fn run_uhttpclient(sc: &Value) -> Value {
+    use hu::uistv1_client::{Client, UistClient};
+    use hu::uistv1_server::*;
+    let d = &sc["datasets"][0];
+    let name = s(&d["name"]);
+    let mut p = Penelope::new();
+    for q in arr(&d["quotes"]) {
+        p.add_quote(bf(&q[0]), bf(&q[1]), i(&q[2]), s(&q[3]));
+    }
+    let data = web::Data::new(Mutex::new(hu::AppState::single(&name, p)));
+    let ops: Vec<Value> = arr(&sc["ops"]).clone();
+    let out = actix_web::rt::System::new().block_on(async move {
+        let data2 = data.clone();
+        let srv = match actix_web::HttpServer::new(move || {
+            App::new().app_data(data2.clone()).service(info).service(init).service(fetch_quotes)
+                .service(tick).service(insert_order).service(delete_order).service(now)
+        })
+        .workers(1)
+        .bind(("127.0.0.1", 0))
+        {
+            Ok(s) => s,
+            Err(e) => return json!({ "skipped": format!("cannot bind loopback: {e}") }),
+        };
+        let port = srv.addrs()[0].port();
+        let running = srv.run();
+        let handle = running.handle();
+        actix_web::rt::spawn(running);
+        let mut c = Client::new(format!("http://127.0.0.1:{port}"));
+        let mut results = Vec::new();
+        for op in &ops {
+            let r = match s(&op["op"]).as_str() {
+                "tick" => some_or_null(c.tick(u(&op["id"])).await.ok().map(|r| u_tick_json(r.has_next, &r.executed_trades, &r.inserted_orders))),
+                "fetch" => some_or_null(c.fetch_quotes(u(&op["id"])).await.ok().map(|r| row_json(&r.quotes))),
+                "init" => some_or_null(c.init(s(&op["name"])).await.ok().map(|r| Value::from(r.backtest_id))),
+                "insert" => some_or_null(c.insert_order(uist_order_of(&op["order"]), u(&op["id"])).await.ok().map(|_| Value::Null)),
+                "delete" => some_or_null(c.delete_order(u(&op["order_id"]), u(&op["id"])).await.ok().map(|_| Value::Null)),
+                "info" => some_or_null(c.info(u(&op["id"])).await.ok().map(|r| json!({"version": r.version, "dataset": r.dataset}))),
+                "now" => some_or_null(c.now(u(&op["id"])).await.ok().map(|r| json!({"now": r.now, "has_next": r.has_next}))),
+                _ => panic!("bad op"),
+            };
+            results.push(r);
+        }
+        handle.stop(false).await;
+        json!({ "results": results, "order_size": std::mem::size_of::<rotala::exchange::uist_v1::Order>() })
+    });
+    out
+}
+
 pub fn run(sc: &Value) -> Value {
     match s(&sc["kind"]).as_str() {
         "uclient" => run_uclient(sc),
+        "uhttpclient" => run_uhttpclient(sc),
         "uist" => run_uist(sc),
         "jura" => run_jura(sc),
         _ => panic!("bad kind"),
